@@ -939,13 +939,14 @@ fn own_words(db: &anything::Db, s: &shipped::Shipped, perms: Perms, only: &Optio
     // (constant index, plain phrase of its words in shipped order, winner of the plain sweep)
     let mut plain: Vec<(usize, String, Option<String>)> = Vec::new();
     let shipped_set: std::collections::HashSet<Canon> = s.constants.iter().map(|c| canon_of(&desc_of("", c, None))).collect();
-    for (index, c) in s.constants.iter().enumerate() {
+    let all_tokens = s.all_tokens();
+    for (index, toks) in all_tokens.iter().enumerate() {
         if let Some(only) = only {
             if !only.contains(&index) {
                 continue;
             }
         }
-        let words: Vec<&str> = c.tokens.iter().map(|t| t.as_ref()).collect();
+        let words: Vec<&str> = toks.iter().map(|t| t.as_str()).collect();
         if shipped::typed_forms(&words).is_empty() {
             continue;
         }
@@ -990,7 +991,7 @@ fn own_words(db: &anything::Db, s: &shipped::Shipped, perms: Perms, only: &Optio
         // the same handle, other orders: A B A, then everything once more in a shuffled order
         let mut ask_again = |index: usize, phrase: &str, before: &Option<String>, how: &str, queries: &mut usize, fails: &mut Vec<OwnWordsFail>| {
             *queries += 1;
-            let words: Vec<&str> = s.constants[index].tokens.iter().map(|t| t.as_ref()).collect();
+            let words: Vec<&str> = all_tokens[index].iter().map(|t| t.as_str()).collect();
             // only what the property states is judged (a constant carrying all the words, decoding
             // completely); whether it is the same constant as before is C14's and C18's business
             let _ = before;
@@ -1017,7 +1018,7 @@ fn own_words(db: &anything::Db, s: &shipped::Shipped, perms: Perms, only: &Optio
     }
     Event::OwnWords {
         slot,
-        constants: s.constants.len(),
+        constants: s.docs(),
         typeable,
         queries,
         fails,
